@@ -38,6 +38,12 @@ package database
 //@   at after (*Options).hasAccessPermission ghost curO = i.options
 //@   ensures err == nil ==> okR && chkR == r && chkO == curO
 //@   ensures err != nil ==> r == nil
+// the read cache is filled with the record just read, under the expiry it has left
+//@   ghost var relSet bool = false
+//@   ghost var rel int64 = 0
+//@   at after (*Meta).GetRelativeExpiry ghost relSet = true
+//@   at after (*Meta).GetRelativeExpiry ghost rel = ret0
+//@   at optional call (*Interface).updateCache assert relSet && arg4 == rel && !arg2 && !arg3 && arg1 == r
 
 // getMeta: metadata is returned only after a successful check of that metadata / its record
 //@ func (*Interface).getMeta
@@ -109,6 +115,13 @@ package database
 //@   nopanic off
 //@   modifies *
 //@   ghost var all bool = false
+//@   ghost var relSet bool = false
+//@   ghost var rel int64 = 0
+//@   ghost var del bool = false
+//@   at after (*Meta).GetRelativeExpiry ghost relSet = true
+//@   at after (*Meta).GetRelativeExpiry ghost rel = ret0
+//@   at after (*Meta).IsDeleted ghost del = ret0
+//@   at call (*Interface).updateCache assert relSet && arg4 == rel && arg2 && arg3 == del && arg1 == r
 //@   ghost var metaErr error = nil
 //@   ghost var checked bool = false
 //@   at after (*Options).HasAllPermissions ghost all = ret0
@@ -122,6 +135,13 @@ package database
 //@   nopanic off
 //@   modifies *
 //@   ghost var all bool = false
+//@   ghost var relSet bool = false
+//@   ghost var rel int64 = 0
+//@   ghost var del bool = false
+//@   at after (*Meta).GetRelativeExpiry ghost relSet = true
+//@   at after (*Meta).GetRelativeExpiry ghost rel = ret0
+//@   at after (*Meta).IsDeleted ghost del = ret0
+//@   at call (*Interface).updateCache assert relSet && arg4 == rel && arg2 && arg3 == del && arg1 == r
 //@   ghost var checked bool = false
 //@   at after (*Options).HasAllPermissions ghost all = ret0
 //@   at after (*Interface).getMeta ghost checked = true
@@ -353,3 +373,13 @@ package database
 //@   at call (*RWMutex).Lock ghost wl = true
 //@   at optional call (*RWMutex).Unlock ghost wl = false
 //@   at store subscriptions assert wl
+
+// ---- C02: a record that has an expiry time is never cached without one (a negative ttl means
+// "does not expire"); the entry lives exactly as long as the record has left
+//@ func (*Interface).updateCache
+//@   requires i != nil
+//@   nopanic off
+//@   modifies *
+//@   at optional call invoke.Set assert ttl < 0 && !remove
+//@   at optional call invoke.SetWithExpire assert ttl >= 0 && !remove && arg2 == time.Duration(ttl) * time.Second
+//@   at optional call invoke.Remove assert remove
